@@ -233,10 +233,11 @@ impl Bitstr {
                 pos += n;
             }
         } else {
-            for byte in data_bytes {
-                let (val, n) = cut_bits(*byte, pos, end);
-                acc |= (val as u128) << (pos - self.start()) as u32;
-                pos += n;
+            // 8-bit groups counted from the start of the value, not from the bytes of the buffer
+            let mut shift = 0;
+            for (val, n) in self.iter8() {
+                acc |= (val as u128) << shift;
+                shift += n;
             }
         }
         acc
